@@ -126,6 +126,9 @@ func (h *vHandler) verifAtomicNote(ev vEvent) {
 			verifrt.Assert(!h.finished[ev.prev], "a stage is reported finished at most once")
 			verifrt.Assert(!h.failed[ev.prev], "a stage is never reported both impossible and finished")
 			h.finished[ev.prev] = true
+			if len(verifDeclared[ev.prev]) > 0 {
+				verifrt.Assert(ev.hasOut, "a stage that declares outputs finishes with one of them: "+ev.prev)
+			}
 			if ev.hasOut {
 				verifrt.Assert(verifDeclared[ev.prev][ev.out], "every reported stage output is declared by the lifecycle")
 				if h.schemas != nil {
